@@ -90,6 +90,13 @@ class Fn:
         self.cls = cls
         self.fw = cls.methods["forward"]
         self.bw = cls.methods["backward"]
+        try:  # same-module helpers (argument splitting, gradient assembly) are analysed as part of the body
+            from ..inline import inline_helpers
+
+            self.fw, _ = inline_helpers(idx, self.fw)
+            self.bw, _ = inline_helpers(idx, self.bw)
+        except Exception:  # an un-inlinable shape is analysed as written
+            pass
         a = self.fw.node.args
         self.fixed = [x.arg for x in a.args][1:]
         self.star = a.vararg.arg if a.vararg else None
@@ -219,7 +226,9 @@ def run(idx: ProgramIndex, rep: Report, tier: str, selftest: bool = True):
         allowed = f.allowed_prefixes()
         # ---------------------------------------------------------------- P1
         env_all = local_lists(f.bw)
-        returns = [n for n in walk_body(f.bw) if isinstance(n, ast.Return) and n.value is not None]
+        # `return None` is the explicit form of falling off the end (no input needs a gradient): not a gradient tuple
+        returns = [n for n in walk_body(f.bw) if isinstance(n, ast.Return) and n.value is not None
+                   and not (isinstance(n.value, ast.Constant) and n.value.value is None)]
         if not returns:
             rep.bad("C07.P1", Finding(PROP, "C07.P1", f"{who}.backward", "no return", f"{who}.backward returns nothing", f.bw.loc()))
         ret_prefixes: List[int] = []
@@ -253,7 +262,7 @@ def run(idx: ProgramIndex, rep: Report, tier: str, selftest: bool = True):
                     rep.ok("C07.P1", sample)
                 else:
                     rep.bad("C07.P1", Finding(
-                        PROP, "C07.P1", f"{who}.backward", f"{norm(r)} [prefix {L}]",
+                        PROP, "C07.P1", f"{who}.backward", f"a returned tuple has {L} fixed slot(s), forward has {sorted(allowed)}",
                         f"{who}.backward returns {L} fixed gradient slot(s) before the representation gradients, but "
                         f"forward takes {sorted(allowed)} fixed input(s) ({', '.join(f.fixed)}"
                         f"{' + inputs unpacked from *' + f.star if f.star else ''}): every representation gradient is "
@@ -362,6 +371,13 @@ def run(idx: ProgramIndex, rep: Report, tier: str, selftest: bool = True):
                     lo, up = sl.lower, sl.upper
                     if isinstance(lo, ast.Constant) and isinstance(lo.value, int) and lo.value > 0:
                         before_idx = max(before_idx, lo.value)
+                    # saved[-k:] reads the k tensors after the representation, saved[:k] the k tensors before it
+                    if up is None and isinstance(lo, ast.UnaryOp) and isinstance(lo.op, ast.USub) and isinstance(lo.operand, ast.Constant):
+                        after_idx = max(after_idx, lo.operand.value)
+                    if up is None and isinstance(lo, ast.Constant) and isinstance(lo.value, int) and lo.value < 0:
+                        after_idx = max(after_idx, -lo.value)
+                    if lo is None and isinstance(up, ast.Constant) and isinstance(up.value, int) and up.value > 0:
+                        before_idx = max(before_idx, up.value)
                     if isinstance(up, ast.UnaryOp) and isinstance(up.op, ast.USub) and isinstance(up.operand, ast.Constant):
                         after_idx = max(after_idx, up.operand.value)
                     if isinstance(up, ast.Constant) and isinstance(up.value, int) and up.value < 0:
@@ -503,8 +519,16 @@ def run(idx: ProgramIndex, rep: Report, tier: str, selftest: bool = True):
                 fl = local_lists(fn)
                 inner = first_star.value
                 lays = []
+                helper_fn = idx.function_of_expr(fn.module, inner.func) if isinstance(inner, ast.Call) else None
+                helper_rets = [r.value for r in walk_body(helper_fn) if isinstance(r, ast.Return) and r.value is not None] \
+                    if helper_fn is not None else []
                 if isinstance(inner, ast.Name) and inner.id + "#all" in fl:
                     lays = fl[inner.id + "#all"]
+                elif helper_rets and all(isinstance(v, (ast.Tuple, ast.List)) and not any(isinstance(e_, ast.Starred) for e_ in v.elts)
+                                         for v in helper_rets) and len([a_ for a_ in n.args if isinstance(a_, ast.Starred)]) >= 2:
+                    # f.apply(tree, flag, *_tensor_args(rhs, lhs), *representation): a helper that returns the fixed inputs as a
+                    # tuple of one or two tensors - every length it can return is a possible number of extra fixed inputs
+                    lays = [[("one", e_) for e_ in v.elts] for v in helper_rets]
                 else:
                     names_in = [x.id for x in ast.walk(inner) if isinstance(x, ast.Name) and x.id + "#all" in fl]
                     if names_in:
@@ -580,6 +604,10 @@ def run(idx: ProgramIndex, rep: Report, tier: str, selftest: bool = True):
     rep.rule("C07.L", "backward is linear in every upstream gradient: each returned entry depends on one, none is of degree 2", floor=20)
     rep.rule("C07.P9", "contributions of distinct upstream gradients are accumulated independently", floor=2)
     check_linearity(idx, rep, collect_functions(idx))
+    from .c07_lin import check_bilinear_degree
+
+    rep.rule("C07.B", "_bilinear_derivative is bilinear: every entry reads both vector arguments, none twice", floor=30)
+    check_bilinear_degree(idx, rep)
 
     if selftest:
         from ..selftest import run_fixtures
